@@ -1,7 +1,8 @@
 #!/usr/bin/env python3
 """Deterministic generator of the Go struct-type corpus for C04 (request binding).
 
-  python3 gen_types.py [N [R]] > types_gen.go    (N grammar types, default 400, then R request-shaped types, default 80)
+  python3 gen_types.py [N [R [D]]] > types_gen.go    (N grammar types, default 400, then R request-shaped
+                                                    types, default 80, then D types over defined scalar types, default 60)
 
 Go cannot build struct types with promoted embedded fields at run time, so the harness carries a
 generated, committed corpus. Every top-level type T<k> comes with
@@ -317,12 +318,43 @@ class ReqGen(TopGen):
         return lines, "T %d %s" % (len(terms), " ".join(terms))
 
 
+# defined (named) scalar types: conversion goes by kind, the stored value must keep the named type
+NAMED = {"s": "NStr", "i0": "NInt", "i8": "NI8", "i16": "NI16", "i32": "NI32", "i64": "NI64",
+         "u0": "NUint", "u8": "NU8", "u16": "NU16", "u32": "NU32", "u64": "NU64",
+         "f32": "NF32", "f64": "NF64", "b": "NBool"}
+NAMED_DECLS = "".join("type %s %s\n\n" % (NAMED[p], GO[p]) for p in PRIMS if p in NAMED)
+
+
+class NamedGen(TopGen):
+    """types whose scalar fields, pointer targets, slice elements and map values are defined types
+    (`type NStr string`, `type NI8 int8` ...). The Ty term is the same as for the underlying kind:
+    binding converts by reflect.Kind; what can go wrong is the *type* of the value that is stored."""
+
+    def gen_leaf(self):
+        r = self.r
+        p = r.pick(PRIM_W)
+        g = NAMED.get(p, GO[p]) if r.chance(5, 6) else GO[p]
+        k = r.n(100)
+        if k < 34:
+            return g, "P " + p, p, "prim"
+        if k < 48:
+            return "*" + g, "R P " + p, p, "ptr"
+        if k < 66:
+            return "[]" + g, "L P " + p, p, "slice"
+        if k < 92:
+            return "map[string]" + g, "M P " + p, p, "map"
+        if k < 96:
+            return "*[]" + g, "R L P " + p, p, "ptrslice"
+        return "*map[string]" + g, "R M P " + p, p, "ptrmap"
+
+
 def main():
     n = int(sys.argv[1]) if len(sys.argv) > 1 else 400
     nreq = int(sys.argv[2]) if len(sys.argv) > 2 else 80
+    nnamed = int(sys.argv[3]) if len(sys.argv) > 3 else 60
     r = Rng(20260926)
     out = []
-    out.append("// Code generated by gen_types.py %d %d; DO NOT EDIT.\n" % (n, nreq))
+    out.append("// Code generated by gen_types.py %d %d %d; DO NOT EDIT.\n" % (n, nreq, nnamed))
     out.append("package main\n")
     out.append('import (\n\t"net/http"\n\t"net/url"\n\t"time"\n\n\t"rivaas.dev/binding"\n)\n')
     out.append("var _ = time.Second\n")
@@ -345,6 +377,15 @@ def main():
         out.extend(g.decls)
         out.append("type T%d struct {\n%s\n}\n" % (k, "\n".join(lines)))
         entries.append((k, term))
+    # types over defined scalar types, third stream
+    out.append(NAMED_DECLS)
+    r3 = Rng(20260928)
+    for k in range(n + nreq, n + nreq + nnamed):
+        g = NamedGen(r3, k)
+        lines, term = g.gen_struct(0, r3.rng(1, 3) if r3.chance(1, 3) else 0)
+        out.extend(g.decls)
+        out.append("type T%d struct {\n%s\n}\n" % (k, "\n".join(lines)))
+        entries.append((k, term))
     out.append("var corpus = []typeEntry{")
     for k, term in entries:
         out.append("\t{Name: \"T%d\", New: func() any { return new(T%d) },\n"
@@ -354,8 +395,14 @@ def main():
                    "\t\tHeader: func(v http.Header, o ...binding.Option) (any, error) { return binding.Header[T%d](v, o...) },\n"
                    "\t\tCookie: func(v []*http.Cookie, o ...binding.Option) (any, error) { return binding.Cookie[T%d](v, o...) },\n"
                    "\t\tBind: func(o ...binding.Option) (any, error) { return binding.Bind[T%d](o...) },\n"
+                   "\t\tQueryWith: func(b *binding.Binder, v url.Values) (any, error) { return binding.QueryWith[T%d](b, v) },\n"
+                   "\t\tPathWith: func(b *binding.Binder, v map[string]string) (any, error) { return binding.PathWith[T%d](b, v) },\n"
+                   "\t\tFormWith: func(b *binding.Binder, v url.Values) (any, error) { return binding.FormWith[T%d](b, v) },\n"
+                   "\t\tHeaderWith: func(b *binding.Binder, v http.Header) (any, error) { return binding.HeaderWith[T%d](b, v) },\n"
+                   "\t\tCookieWith: func(b *binding.Binder, v []*http.Cookie) (any, error) { return binding.CookieWith[T%d](b, v) },\n"
+                   "\t\tBindWith: func(b *binding.Binder, o ...binding.Option) (any, error) { return binding.BindWith[T%d](b, o...) },\n"
                    "\t\tTy: %s},"
-                   % (k, k, k, k, k, k, k, k, '"' + term + '"'))
+                   % ((k,) * 14 + ('"' + term + '"',)))
     out.append("}\n")
     sys.stdout.write("\n".join(out))
 
